@@ -14,7 +14,11 @@ class CallbackError(Exception):
 ORDER = {"CountMinLinear": 0, "CountMinLog16": 0, "CountMinLog8": 0, "HeavyHitters": 1, "HyperLogLog": 2}
 
 
-def cb(item, *sketches, logdir=None, die_item=None, tag=None, expect=None):
+def cb(item, *sketches, logdir=None, die_item=None, tag=None, expect=None, table=None):
+    # items travel as small integers 0..K-1 (indices into `table`, like file numbers or offsets in
+    # real use; note that the first one is falsy); the specification numbers them 1..K
+    if table is not None:
+        item = table[item]
     # the documented contract: the sketches arrive in alphabetical order cms, hh, hll, and the
     # keyword arguments given to parallel_add are passed through
     kinds = [ORDER.get(type(s).__name__, 9) for s in sketches]
